@@ -61,7 +61,18 @@ def _gen_from(rnd):
     rb = get_rulebook(HardwareView(model, ""))
     old = shiprows.gen_tree(rnd, rb["patching"])
     new = shiprows.mutate(rnd, rb["patching"], old)
-    return {"kind": "gen", "model": model, "old": RL.plain(old), "new": RL.plain(new), "files": rnd.chance(33)}
+    old, new = RL.plain(old), RL.plain(new)
+    files = rnd.chance(33)
+    if rnd.chance(20) and old:
+        # a small difference only: one top-level line or block disappears, possibly emptied first (differences for which the
+        # rulebook logic emits no command at all - permanent lines, ignored changes - are differences all the same)
+        new = dict(old)
+        victim = rnd.choice(sorted(new))
+        if rnd.chance(50):
+            old = dict(old, **{victim: {}})
+        del new[victim]
+        files = rnd.chance(70)
+    return {"kind": "gen", "model": model, "old": old, "new": new, "files": files}
 
 
 @st.composite
